@@ -296,6 +296,15 @@ class Rule:
         """called when a condition on an opaque value splits the state"""
         pass
 
+    def on_loop_entry(self, it, st, loop, tag):
+        """a loop that is analysed by havoc: the state on entry, before the assigned locations are forgotten"""
+        pass
+
+    def on_iteration_end(self, it, st, loop, tag):
+        """... and the state at the end of one generic iteration that goes round again (the havoc'ed locations are the
+        terms ('havoc', tag, loc, path)): per-iteration relations can be read off here"""
+        pass
+
     def on_narrow(self, it, st, v, node, from_type, to_type):
         """a non-concrete 64-bit integer is converted to a narrower integer type (the engine itself keeps the value unchanged)"""
         pass
@@ -357,6 +366,16 @@ class Interp:
         v = st.mem.get(k)
         if v is not None:
             return v
+        if path.endswith('[0]'):
+            # first byte of a char buffer whose abstract content is kept as empty / nonempty / unknown (model.msg_state)
+            ms = st.mem.get((loc, path[:-3] + '#'))
+            if ms == 'empty':
+                return Int(0)
+            if ms in ('nonempty', 'unknown'):
+                t = Term(('mem', loc, path))
+                if ms == 'nonempty' and t.k not in st.cons:
+                    st.cons[t.k] = (('!=', 0),)
+                return t
         if loc[0] == 'str':
             return self.load_str(loc, path)
         if loc[0] == 'glob' and loc not in st.ginit:
@@ -1783,8 +1802,9 @@ class Interp:
     def assigned_locs(self, n, acc):
         if isinstance(n, dict):
             k = n.get('kind')
-            if k == 'CompoundStmt' and n.get('inner') and n['inner'][-1].get('kind') in ('ReturnStmt', 'GotoStmt'):
-                return      # block leaves the loop: its stores do not reach the back edge
+            if k == 'CompoundStmt' and n.get('inner') and n['inner'][-1].get('kind') in ('ReturnStmt', 'GotoStmt') \
+                    and "'kind': 'ContinueStmt'" not in repr(n):
+                return      # block leaves the loop (and nothing in it continues): its stores do not reach the back edge
             if k in ('BinaryOperator', 'CompoundAssignOperator') and (n.get('opcode') == '=' or k == 'CompoundAssignOperator'):
                 acc.append(n['inner'][0])
             if k == 'UnaryOperator' and n.get('opcode') in ('++', '--'):
@@ -1900,6 +1920,7 @@ class Interp:
                         for s3, t in self._truthy(s2, cv, cond):
                             if not t:
                                 outs.append((s3, NORMAL))
+                self.rule.on_loop_entry(self, s0, n, tag)
                 self.havoc(s0, [cond, inc, body], tag)
                 conds = self.ev(cond, s0.clone()) if cond is not None else [(s0.clone(), Int(1))]
                 for s2, cv in conds:
@@ -1913,6 +1934,7 @@ class Interp:
                                     if inc is not None:
                                         r2 = self.ev(inc, s5)
                                         s5 = r2[0][0] if r2 else s5
+                                    self.rule.on_iteration_end(self, s5, n, tag)
                                     self.havoc(s5, [cond, inc, body], tag)
                                     for s6, cv2 in (self.ev(cond, s5) if cond is not None else []):
                                         for s7, t2 in self._truthy(s6, cv2, cond):
